@@ -53,3 +53,38 @@ def _v6(repo, mod):
 def _v7(repo, mod):
     fn = repo.func(LG, "_float_to_cst")
     return insert_before(mod, fn.body[-1], "_unused = abs_val")
+
+
+@variant("C23", "collection-size-zero-empty-range", LG, "C23.generate", "list size drawn from an empty range when collection_size is 0 (the repaired defect)")
+def _v30(repo, mod):
+    fn = repo.func(LG, "_gen_list")
+    s = find_stmt(fn, lambda s: isinstance(s, ast.If) and "max_count" in norm(s.test))
+    return replace_node(mod, s.test, "randomness.next_bool()")
+
+
+@variant("C23", "string-length-zero-empty-range", LG, "C23.generate", "string length drawn from randrange(0, 0) (the repaired defect)")
+def _v31(repo, mod):
+    fn = repo.func(LG, "_gen_str")
+    c = find_node(fn, lambda n: isinstance(n, ast.Call) and norm(n.func) == "max" and "string_length" in norm(n))
+    return replace_node(mod, c, "tc.string_length")
+
+
+@variant("C23", "tuple-request-answered-with-a-list", LG, "C23.generate", "generate_literal(tuple) yields a list display")
+def _v32(repo, mod):
+    fn = repo.func(LG, "generate_literal")
+    s = find_stmt(fn, lambda s: isinstance(s, ast.If) and norm(s.test) == "raw is tuple")
+    return replace_node(mod, s.body[0].value, "_gen_list(constant_provider, element_pool)")
+
+
+@variant("C23", "collection-larger-than-configured", LG, "C23.generate", "sets get up to three elements whatever the configured maximum")
+def _v33(repo, mod):
+    fn = repo.func(LG, "_gen_set")
+    s = find_stmt(fn, lambda s: isinstance(s, ast.Assign) and norm(s.targets[0]) == "max_count")
+    return replace_node(mod, s.value, "3")
+
+
+@variant("C23", "twin-size-clamped-differently", LG, None, "the same bound written with a conditional expression stays silent")
+def _v34(repo, mod):
+    fn = repo.func(LG, "_gen_str")
+    c = find_node(fn, lambda n: isinstance(n, ast.Call) and norm(n.func) == "max" and "string_length" in norm(n))
+    return replace_node(mod, c, "(tc.string_length if tc.string_length > 0 else 1)")
